@@ -102,7 +102,7 @@ PROPS = {
     "C06": dict(runs=[("core", "storeops", dict(quick=600, thorough=3000)), ("core", "hist", dict(quick=300, thorough=5000))], proj=proj_full, tags=["C06"],
                 rule="raw get/set-if-absent/compare-and-swap sequences on the three real stores in random (also degenerate) configurations, times straddling every cleanup trigger; snapshot of entries and scheduling state compared with the model after every operation; answers compared with an independent abstract expiring map"),
     "C07": dict(runs=[("core", "hist", dict(quick=800, thorough=15000)), ("core", "reclaim", dict(quick=150, thorough=3000))], proj=proj_lifetime, tags=["C07"],
-                rule="hist: lifetime of every store write within [E, 2*B*E]; reclaim: unbounded stream of fresh keys with a bounded active set on cleanup-enabled stores, after every guaranteed cleanup point (interval elapsed / operation budget / N-th write) no held entry is expired and the entry count is within the active set"),
+                rule="hist: lifetime of every store write within [E, 2*B*E]; reclaim: unbounded stream of fresh keys with a bounded active set on cleanup-enabled stores, after every guaranteed cleanup point (interval elapsed / operation budget) no held entry is expired and the entry count is within the active set; probabilistic store (half of its sessions start from the state after 10^9..10^12 writes, a few writes before count*multiplier passes a multiple of 2^64): no entry is expired-and-held over N consecutive write operations"),
     "C08": dict(runs=[("core", "lattice", dict(quick=0, thorough=1))], proj=proj_resp, tags=["C08"],
                 rule="boundary lattice {MIN,-1,0,1,2,2^31-1,2^31,2^32-1,2^32,2^32+1,2^53-1,2^53+1,2^63/1e9 -+1,MAX-1,MAX}^4 (thorough: 24^4) x 4 timestamps 1970..2200 x fresh/pre-populated x 3 stores, plus random points; harness built with overflow checks on (debug profile) and off (release)",
                 profiles=["release", "dev"]),
@@ -288,6 +288,7 @@ def leg_p(pid, tier):
 # ------------------------------------------------------------------------------------------------
 
 TRANSLATOR_BROKEN = None
+TRANSLATOR_STATUS = {}
 NEED_BINARY = False
 
 def alt_harness():
@@ -320,6 +321,11 @@ def build_all(profiles=("release",)):
             # generated Consts.lean so that the other legs can still look for a failing input
             global TRANSLATOR_BROKEN
             TRANSLATOR_BROKEN = "translator could not regenerate constants / tables from the source: " + out.strip()[-600:]
+        global TRANSLATOR_STATUS
+        try:
+            TRANSLATOR_STATUS = json.load(open(os.path.join(WORK, "translator_status.json")))
+        except Exception:
+            TRANSLATOR_STATUS = {}
         rc, out = sh(["lake", "build", "driver"], cwd=LEAN, timeout=3000)
         if rc != 0:
             return False, "lake build driver failed:\n" + "\n".join(l for l in out.splitlines() if "error" in l)[:3000]
@@ -500,6 +506,14 @@ def run_core(pid, tier, seed):
     cov["discharged"] = p["discharged"]
     cov["checker_cmd"] = p["checker_cmd"]
     cov["legs"]["P"] = {k: p.get(k) for k in ("ok", "theorems", "axioms_used", "failing", "leanchecker")}
+    # static tie of constants / tables: which items the translator located in the current source
+    ts = TRANSLATOR_STATUS
+    cov["legs"]["P"]["translator"] = dict(located=len(ts.get("located", [])), located_by_value=ts.get("located_by_value", {}),
+                                          not_located=ts.get("not_located", {}))
+    for k, v in ts.get("located_by_value", {}).items():
+        log(f"[{pid}] NOTE translator: {k}: {v}")
+    for k, v in ts.get("not_located", {}).items():
+        log(f"[{pid}] NOTE translator: {k} not located in the restructured source ({v}); last known content used, its tie rests on the correspondence legs of this run")
     log(f"[{pid}] P: {'ok' if p['ok'] else 'BROKEN'} {p['discharged']}/{p['obligations']} theorems; axioms {p.get('axioms_used')}")
     if not p["ok"]:
         log(p["detail"])
